@@ -48,6 +48,11 @@ for sid, meta, res in results:
         own_s = {0: "MISSED", 1: "caught", 2: "analysis-error"}[own[0]]
         keys = own[1] or own[2]
     others = ["%s(%s)" % (q, {1: "viol", 2: "err"}[rc]) for q, (rc, k, e) in res.items() if q != p and rc != 0]
+    # remember, per check, how this seeded change is answered: the thorough tier re-checks it in memory
+    if not only or True:
+        meta["detection"] = {q: {0: "silent", 1: "violation", 2: "analysis-error"}[rc] for q, (rc, k, e) in res.items()}
+        meta["detected_by_rules"] = {q: sorted({x.split(":")[0] for x in k})[:6] for q, (rc, k, e) in res.items() if rc == 1}
+        json.dump(meta, open(os.path.join(SEEDED, sid, "meta.json"), "w"), indent=1)
     anyc = (own and own[0] == 1) or any(rc == 1 for q, (rc, k, e) in res.items())
     caught += 1 if anyc else 0
     lines.append("| %s | %s | %s | %s | %s |" % (sid, p, own_s, "; ".join(sorted(set(keys)))[:300], ", ".join(others)))
